@@ -1136,3 +1136,8 @@ fi
 
     Ok(())
 }
+
+#[cfg(feature = "verif")]
+pub fn verif_make_string_constant(s: &str) -> String {
+    make_string_constant(s)
+}
